@@ -251,8 +251,18 @@ def run_harness(cmd, lines, timeout=600):
 
 
 def coqc_file(path, timeout=1800):
-    p = sh(["coqc", "-Q", COQ, "Calc", path], timeout=timeout, check=False, cwd=os.path.dirname(path))
+    """rc -9 = the evaluator did not finish within the budget"""
+    try:
+        p = sh(["coqc", "-Q", COQ, "Calc", path], timeout=timeout, check=False, cwd=os.path.dirname(path))
+    except subprocess.TimeoutExpired:
+        return -9, "", "timeout after %ds" % timeout
     return p.returncode, p.stdout.decode(errors="replace"), p.stderr.decode(errors="replace")
+
+
+# cases the Coq evaluator could not finish within its budget (list-based model: a program that builds
+# very large values or runs for millions of steps is cheap for the Go code and too slow for vm_compute);
+# they are NOT compared and are counted in the evidence
+MODEL_TIMEOUTS = []
 
 
 def coq_eval_cases(name, imports, case_terms, checker, shard=400, timeout=1800, keep=False):
@@ -306,44 +316,79 @@ def coq_eval_cases(name, imports, case_terms, checker, shard=400, timeout=1800, 
     return sorted(bad)
 
 
-def coq_eval_codes(name, imports, case_terms, fn, shard=50, timeout=3600, keep=False):
+def coq_eval_codes(name, imports, case_terms, fn, shard=50, timeout=900, keep=False, single_timeout=240):
     """Evaluate `fn : <case> -> Z` on every case; return {index: code} for the
-    cases whose code is not 0."""
+    cases whose code is not 0.  A shard that does not finish within `timeout`
+    is re-run case by case with `single_timeout` each; cases that still do not
+    finish are recorded in MODEL_TIMEOUTS and not compared."""
     cdir = os.path.join(BUILD, "cases")
     os.makedirs(cdir, exist_ok=True)
     for f in os.listdir(cdir):
         if f.startswith(name + "_"):
             os.unlink(os.path.join(cdir, f))
-    shards = []
-    for si, off in enumerate(range(0, len(case_terms), shard)):
-        chunk = case_terms[off:off + shard]
-        path = os.path.join(cdir, "%s_%d.v" % (name, si))
+
+    def write_shard(path, items):
         with open(path, "w") as f:
             f.write("From Calc Require Import %s.\n" % " ".join(imports))
             f.write("Open Scope string_scope. Open Scope list_scope. Open Scope Z_scope.\n")
             f.write("Definition cases := [\n")
-            f.write(";\n".join("(%d, %s)" % (off + i, t) for i, t in enumerate(chunk)))
+            f.write(";\n".join("(%d, %s)" % (i, t) for i, t in items))
             f.write("\n].\n")
             f.write("Definition codes := Eval vm_compute in "
                     "(filter (fun c => negb (snd c =? 0)) (map (fun c => (fst c, %s (snd c))) cases)).\n" % fn)
             f.write("Print codes.\n")
-        shards.append(path)
+
+    shards = []
+    for si, off in enumerate(range(0, len(case_terms), shard)):
+        items = [(off + i, t) for i, t in enumerate(case_terms[off:off + shard])]
+        path = os.path.join(cdir, "%s_%d.v" % (name, si))
+        write_shard(path, items)
+        shards.append((path, items))
     res = {}
 
-    def one(path):
-        rc, out, err = coqc_file(path, timeout=timeout)
-        if rc != 0:
-            raise CheckError("model evaluation failed on %s:\n%s" % (os.path.basename(path), (out + err)[-3000:]))
+    def parse(path, out):
         m = re.search(r"codes\s*=\s*(.*?)\s*:\s*list", out, flags=re.S)
         if not m:
             raise CheckError("cannot parse model output of %s: %s" % (path, out[-500:]))
         nums = [int(x) for x in re.findall(r"-?\d+", m.group(1))]
         return list(zip(nums[0::2], nums[1::2]))
 
+    def one(sh_):
+        path, items = sh_
+        rc, out, err = coqc_file(path, timeout=timeout)
+        if rc == -9 and len(items) > 1:
+            return ("slow", items)
+        if rc == -9:
+            MODEL_TIMEOUTS.append((name, items[0][0]))
+            return ("ok", [])
+        if rc != 0:
+            raise CheckError("model evaluation failed on %s:\n%s" % (os.path.basename(path), (out + err)[-3000:]))
+        return ("ok", parse(path, out))
+
+    slow = []
     with ThreadPoolExecutor(max_workers=16) as ex:
-        for r in ex.map(one, shards):
-            for i, c in r:
-                res[i] = c
+        for kind, r in ex.map(one, shards):
+            if kind == "slow":
+                slow.extend(r)
+            else:
+                for i, c in r:
+                    res[i] = c
+    if slow:
+        singles = []
+        for i, t in slow:
+            path = os.path.join(cdir, "%s_s%d.v" % (name, i))
+            write_shard(path, [(i, t)])
+            singles.append((path, [(i, t)]))
+        shards.extend(singles)
+        old, timeout = timeout, single_timeout
+        try:
+            with ThreadPoolExecutor(max_workers=16) as ex:
+                for kind, r in ex.map(one, singles):
+                    for i, c in r:
+                        res[i] = c
+        finally:
+            timeout = old
+    shards = [p for p, _ in shards]
     if not keep:
         for path in shards:
             for ext in (".v", ".vo", ".vok", ".vos", ".glob"):
@@ -487,6 +532,12 @@ class Run:
 
     def finish(self):
         wall = time.time() - self.t0
+        if MODEL_TIMEOUTS:
+            self.cov["model_evaluation_timeouts"] = len(MODEL_TIMEOUTS)
+            self.assumptions = list(self.assumptions) + [
+                "%d generated case(s) were run on the real code but NOT compared with the Coq model: vm_compute did not "
+                "finish them within the per-case budget (the list-based model is slow on programs that build very large "
+                "values or run millions of steps)" % len(MODEL_TIMEOUTS)]
         ev = {
             "property_id": self.prop,
             "tier": self.tier,
